@@ -51,6 +51,25 @@ func NewFakeSMTP() (*FakeSMTP, error) {
 	return s, nil
 }
 
+var (
+	sharedSMTPMu sync.Mutex
+	sharedSMTP   *FakeSMTP
+)
+
+// SharedSMTP returns the process-wide loopback SMTP server (started on first use).
+func SharedSMTP() (*FakeSMTP, error) {
+	sharedSMTPMu.Lock()
+	defer sharedSMTPMu.Unlock()
+	if sharedSMTP == nil {
+		s, err := NewFakeSMTP()
+		if err != nil {
+			return nil, err
+		}
+		sharedSMTP = s
+	}
+	return sharedSMTP, nil
+}
+
 func (s *FakeSMTP) Addr() string { return s.ln.Addr().String() }
 func (s *FakeSMTP) Close()       { s.ln.Close() }
 
